@@ -1,17 +1,15 @@
 #!/bin/bash
-# Applies every stored seed to /repo in turn, runs all checks, prints which fired, undoes it.
+# Applies every stored seed to /repo in turn (git -C /repo apply), runs all checks, records which spoke in the seed's
+# meta.json ("matrix_on_repo"), and undoes it straight afterwards (git -C /repo checkout -- .).
 cd /verif
 for d in seeded/*/; do
   id=$(basename $d)
-  if ! git -C /repo apply --check /verif/$d/patch.diff 2>/dev/null; then echo "$id: patch does not apply to the current tree (base moved)"; continue; fi
+  if ! git -C /repo apply --check /verif/$d/patch.diff 2>/dev/null; then echo "$id: patch does not apply to the current tree (base moved)"; python3 tools/meta.py $id "matrix_on_repo=patch does not apply to the current tree (the defect it planted was repaired since)"; continue; fi
   git -C /repo apply /verif/$d/patch.diff
-  out=""
-  for i in $(seq 2 19); do c=$(printf "C%02d" $i)
-    SA_EVIDENCE_DIR=/tmp/ev_matrix /venv/bin/python -m sa check $c > /tmp/ev_matrix_$c.log 2>&1; rc=$?
-    if [ $rc -ne 0 ]; then out="$out $c:$rc"; fi
-  done
+  out=$(SA_EVIDENCE_DIR=/tmp/ev_matrix /venv/bin/python -m sa all 2>&1 | grep -E "^(VIOLATION|ANALYSIS-ERROR)" | sed -E 's/VIOLATION property=(C[0-9]+).*/\1:1/; s/ANALYSIS-ERROR property=(C[0-9]+).*/\1:2/' | sort -u | tr '\n' ' ')
   git -C /repo checkout -- .
-  echo "$id ->$out"
+  echo "$id -> $out"
+  python3 tools/meta.py $id "matrix_on_repo=${out:-none}"
 done
-rm -rf /tmp/ev_matrix /tmp/ev_matrix_*.log
+rm -rf /tmp/ev_matrix
 git -C /repo status --short | head -3
